@@ -37,6 +37,7 @@ ASSUMPTIONS = [
 def run(prog, rep, tier):
     r17_1(prog, rep)
     r17_2(prog, rep)
+    r17_2b(prog, rep)
     r17_3(prog, rep)
     r17_4(prog, rep)
     r17_5(prog, rep)
@@ -285,6 +286,20 @@ def r17_2(prog, rep):
             and unparse(st[0].value.value) == "term" and unparse(st[0].value.generators[0].iter) == f.params[1] \
             and not st[0].value.generators[0].ifs
         obl(rep, f, st[0] if st else f.node, "R17.2", ok, "terms dict keeps the model's term order, keyed by term name")
+
+
+def r17_2b(prog, rep):
+    """column labels are unique only if the labels of a factor's columns are an injective image of its levels: the
+    encodings label their columns with str(level), level by level (C04's R4.2 label obligations, reported as R17.2)"""
+    from . import C04
+    sub = rep.sub()
+    C04.r4_2(prog, sub)
+    for it in sub.items:
+        if "label" in it["construct"].lower():
+            it = dict(it)
+            it["rule"] = "R17.2"
+            rep.items.append(it)
+            rep.counts["R17.2"] = rep.counts.get("R17.2", 0) + 1
 
 
 def r17_3(prog, rep):
